@@ -32,10 +32,10 @@ SPEC = dict(
                  "tasks can have been pending, 'draining'/'shutting down' before any drain/stop/shutdown/destruction began"],
     units=[
         pbt("c09_pool", "harness/c09_pool.cpp", dict(
-            pool=P(100, 700, 16, 16, extra=_NOSHRINK, q_secs=45),
+            pool=P(150, 3000, 16, 16, extra=_NOSHRINK, q_secs=45, t_secs=600),
         ), flags=["-DC09_INTERPOSE"]),
         pbt("c09_tsan", "harness/c09_pool.cpp", dict(
-            pool=P(80, 450, 16, 16, extra=_NOSHRINK, q_secs=45),
+            pool=P(120, 2000, 16, 16, extra=_NOSHRINK, q_secs=45, t_secs=600),
         ), san="tsan", tsan_scope=["thread_pool.hpp"]),
     ],
 )
